@@ -345,7 +345,7 @@ add("c16_dur_order", "C16", "quick", 3, "crate::c16::dur_order()", {"d1,d2": K["
 # ---------------------------------------------------------------- C01
 for a in SCALARS:
     for b in SCALARS:
-        quick = a in "IUFB" and b in "IUFB"
+        quick = (a in "IUFB" and b in "IUFB") or (a in "DT" and b in "DT")
         add(f"c01_binops_{kn(a)}_{kn(b)}", "C01", "quick" if quick else "thorough", uw(a, b),
             f"crate::c01::binops::<{kt(a)}, {kt(b)}>()", dom(a, b), need=["all binary operators returned"], cap=900,
             funcs=["<CelValue as Add/Sub/Mul/Div/Rem>", "CelValue::lt/le/gt/ge/neq/or/and/in_/index", "<CelValue as CelValueDyn>::eq"])
